@@ -8,6 +8,7 @@ RULE = ('(messages are handed to the library from byte offset (len + first byte)
         '(and X25519 of the hashed secret with the birationally mapped key for exchange); every message length 0..=300 (one seed in quick, several in thorough), '
         'sampled 1-64 KiB, structured seeds, extended secrets derived from seeds and arbitrary clamped ones; distinct = (op, seed class, message length)')
 ASSUMPTIONS = ['bulk phase: the force-32bits backend serves as a second implementation for locating rare disagreements; a disagreement is reported only when the Python model shows the default build wrong, and sampled outputs are always checked against the Python model', 'Python-int RFC 8032 model pinned by RFC 8032 7.1 vectors; hashlib SHA-512']
+EXTRA_CFGS = ['f32']   # the workload is also executed by the force-32bits build (fe32 / scalar32 are anchors of this property); tokens must equal the model-checked default build's
 FLOORS = {'evaluations': 12000, 'distinct': 10000}
 THOROUGH_ROUNDS = 4   # thorough tier: generator passes with derived seeds (runner.gen_rounds)
 # bulk phase (cxv/bulk.py): keypair + signature + verification of it on derived seeds / messages of 0..63 bytes
